@@ -49,6 +49,23 @@ func (eng *Engine) runUnit(us UnitSpec) (res *UnitResult) {
 	}
 	ex := newExec(eng, us.Fn)
 	ex.sweep = us.Mode == "sweep"
+	ex.hintPrefix = us.Mode + "|"
+	if us.Locks {
+		ex.hintPrefix += "locks|"
+	}
+	// previously confirmed candidate sets (accelerator only: every set is
+	// confirmed again by proof, and a set that is not confirmed as a whole is
+	// discarded in favour of the full candidate search)
+	for k, ids := range eng.hints {
+		if strings.HasPrefix(k, ex.hintPrefix+us.Fn+"/") {
+			set := map[string]bool{}
+			for _, id := range ids {
+				set[id] = true
+			}
+			ex.houdiniCache[k] = set
+			ex.hinted[k] = len(ids)
+		}
+	}
 	ex.lockChecks = us.Locks
 	if us.Locks {
 		ex.lockTags = us.Tags
@@ -67,6 +84,11 @@ func (eng *Engine) runUnit(us UnitSpec) (res *UnitResult) {
 		res.Inlined = sortedKeysB(ex.inlinedFns)
 		res.Modular = sortedKeysB(ex.modularFns)
 		res.Loops = ex.loopKinds
+		eng.hintsMu.Lock()
+		for k, set := range ex.houdiniCache {
+			eng.newHints[k] = sortedKeysB(set)
+		}
+		eng.hintsMu.Unlock()
 		res.GenTime = time.Since(t0).Seconds()
 		res.ScriptLines = len(ex.sc.lines)
 		if r := recover(); r != nil {
@@ -82,6 +104,9 @@ func (eng *Engine) runUnit(us UnitSpec) (res *UnitResult) {
 	}()
 	ex.sc.emit("(declare-fun STR_EMPTY () Str)")
 	ex.sc.axiom("(= (slen STR_EMPTY) 0)")
+	// all-empty string array (cvc5 rejects 'as const' with a non-value, z3 gives up on it)
+	ex.sc.emit("(declare-fun STR_EMPTY_ARR () (Array Int Str))")
+	ex.sc.axiom("(forall ((i Int)) (! (= (select STR_EMPTY_ARR i) STR_EMPTY) :pattern ((select STR_EMPTY_ARR i))))")
 	ex.sc.decls["STR_EMPTY"] = sStr
 	if us.Locks {
 		ex.guards = eng.buildGuards(ex)
@@ -194,6 +219,9 @@ func discharge(obls []*Obligation, timeoutS int, cross bool, workers int) {
 }
 
 func (o *Obligation) ok() bool {
+	if o.Info {
+		return true
+	}
 	if o.IsSat {
 		return o.Res.Status != "unsat"
 	}
